@@ -192,14 +192,14 @@ def gen_scenario(ctx, k):
         i = len(cmds)
         cmds.append((line, ret, msgs))
         sc.add(f'mark c{i}', line, 'flush', 'quiesce')
-        if ret == 0:
+        if ret in (0, None):
             for (ad, t, dta) in msgs:
                 m.on_wire(ad, t, dta)
             if hook:
                 hook(m)
                 hooks[f'h{i}'] = hook
                 sc.add(f'mark h{i}')
-        if ret != 0 and rng.random() < 0.15 or rng.random() < 0.02:
+        if ret not in (0, None) and rng.random() < 0.15 or rng.random() < 0.02:
             sc.add(f'snap s{i}')
     work = []
 
@@ -233,6 +233,14 @@ def gen_scenario(ctx, k):
                                  ('bidib_set_booster_power_state', 'booster', [rng.randrange(2)]),
                                  ('bidib_set_track_output_state', 'to_state', [rng.choice([0, 1, 2, 3, 4, 8])])):
             work.append((fn, [S_(b['id'])] + args, lambda b=b, kind=kind, args=args: enc.board_cmd(kind, b['id'], args[0] if args else None)))
+    def to_all(state):
+        msgs = []
+        for b_ in cfg['boards']:
+            if m.connected(b_['id']) and cfggen.is_track_output(b_):
+                msgs.append((m.addr[b_['id']], C('MSG_CS_SET_STATE'), bytes([state])))
+        return None, msgs, None          # void function: every connected track output gets the command, whatever the library believes its state to be
+    for st_ in rng.sample([0, 1, 2, 3, 4, 8], 3) + [3, 3]:
+        work.append(('bidib_set_track_output_state_all', [st_], lambda st_=st_: to_all(st_)))
     work.append(('bidib_switch_point', [S_(UNK), S_(UNK)], lambda: enc.accessory(True, UNK, UNK)))
     work.append(('bidib_switch_point', ['@null', S_(UNK)], lambda: enc.accessory(True, None, UNK)))
     work.append(('bidib_set_signal', [S_(UNK), '@null'], lambda: enc.accessory(False, UNK, None)))
@@ -325,7 +333,7 @@ def gen_scenario(ctx, k):
             exp = enc.estop(tid, to)
         else:
             exp = expf()
-        if exp[0] is None:
+        if exp[0] is None and fn != 'bidib_set_track_output_state_all':
             continue
         add(call(fn, *args), exp)
     sc.add('snap end', 'mark cend', 'stop')
@@ -357,7 +365,7 @@ def evaluate(ctx, r, cfg, nodes, cmds, hooks, meta):
         if ret == 1 and got:
             ctx.violation('message-on-error', fn, f'{line}: returned 1 but submitted {[(a, hex(t), d.hex()) for a, t, d in got]}', r.scenario, r.flavour, meta)
             return
-        if ret == 0 and got != [(tuple(a), t, d) for (a, t, d) in msgs]:
+        if ret in (0, None) and sorted(got) != sorted((tuple(a), t, d) for (a, t, d) in msgs) if fn == 'bidib_set_track_output_state_all' else ret == 0 and got != [(tuple(a), t, d) for (a, t, d) in msgs]:
             ctx.violation('encoding', fn, f'{line}: wire {[(a, hex(t), d.hex()) for a, t, d in got]}, configuration prescribes {[(tuple(a), hex(t), d.hex()) for a, t, d in msgs]}',
                           r.scenario, r.flavour, meta)
             return
